@@ -309,12 +309,22 @@ func (e *Env) tr(x Expr) Term {
 			var pats []string
 			for _, g := range x.Triggers {
 				var ts []string
+				usable := true
 				for _, te := range g {
-					ts = append(ts, n.value(n.tr(te)).S)
+					t := n.value(n.tr(te)).S
+					// solvers reject or ignore patterns containing if-then-else
+					if strings.Contains(t, "(ite ") {
+						usable = false
+					}
+					ts = append(ts, t)
 				}
-				pats = append(pats, ":pattern ("+strings.Join(ts, " ")+")")
+				if usable {
+					pats = append(pats, ":pattern ("+strings.Join(ts, " ")+")")
+				}
 			}
-			b = fmt.Sprintf("(! %s %s)", b, strings.Join(pats, " "))
+			if len(pats) > 0 {
+				b = fmt.Sprintf("(! %s %s)", b, strings.Join(pats, " "))
+			}
 		}
 		return Term{S: fmt.Sprintf("(%s (%s) %s)", q, strings.Join(bs, " "), b), Sort: "Bool"}
 	case *ECall:
@@ -651,7 +661,12 @@ func (e *Env) call(x *ECall) Term {
 			}
 		}
 		if recvName != "" {
-			if sp, ok := vc.P.spec.Funcs[recvName+"."+x.Fun]; ok && sp.PureConst {
+			sp, ok := vc.P.spec.Funcs[recvName+"."+x.Fun]
+			if !ok {
+				// a method with a value receiver of another package: (pkg.Type).Method
+				sp, ok = vc.P.spec.Funcs["("+recvName+")."+x.Fun]
+			}
+			if ok && sp.PureConst {
 				var as []Term
 				for _, a := range x.Args {
 					as = append(as, e.value(e.tr(a)))
